@@ -291,6 +291,7 @@ class State:
         self.frozen = {}     # frozen pseudo-root -> (original prefix, was_havocked) : snapshot of an aggregate that
                              # was copied from (aliased) and later overwritten at its source
         self.shared = set()  # keys of aggregate fields that hold a SHARED reference (`&T`): callees cannot write through them
+        self.ptrmeta = {}    # local holding an opaque fat pointer -> Val standing for its length (PtrMetadata)
 
     def clone(self):
         n = State()
@@ -303,6 +304,7 @@ class State:
         n.epoch = dict(self.epoch)
         n.frozen = dict(self.frozen)
         n.shared = set(self.shared)
+        n.ptrmeta = dict(self.ptrmeta)
         return n
 
 
@@ -885,6 +887,14 @@ class Executor:
             return
         if rhs.startswith("no_retag "):
             rhs = rhs[len("no_retag "):]
+        m = re.match(r"^PtrMetadata\((?:copy|move) (_\d+)\)$", rhs)
+        if m and dsort is not None:
+            # length of a slice reached through an opaque pointer: an arbitrary value of the destination's type,
+            # recorded per path so that an oracle can name it (st.ptrmeta: source local -> value)
+            v = self.fresh("ptrmeta:" + m.group(1), dsort)
+            st.ptrmeta[m.group(1)] = v
+            put(v)
+            return
         if rhs.startswith("copy ") or rhs.startswith("move ") or rhs.startswith("const "):
             if rhs.startswith("const "):
                 c = rhs[6:].strip()
